@@ -144,6 +144,8 @@ def run_property(prop, tier, seed, timeout, args, t_start):
             errors.append((q, f"UNSUPPORTED {e}"))
         except KeyError as e:
             errors.append((q, f"function not found in the current tree: {e}"))
+        except Exception as e:       # an engine failure on this function is never a verdict; the falsifier still runs below
+            errors.append((q, f"ENGINE FAILURE {type(e).__name__}: {str(e)[:200]}"))
     # reachability (non-vacuity) queries
     reach = []
     for q in sorted(funcs):
